@@ -39,7 +39,8 @@ PROP = {
                    "started/done counters (SeqCst). The `unsync` flavour of SharedFd (Rc + RefCell slot) is NOT covered by the "
                    "protocol leg: compio-driver's feature `sync` is crate-wide and this binary needs it for the threaded part. "
                    "Liveness is judged executor-faithfully: a take() that is Pending after every other handle is gone with no "
-                   "wake outstanding never completes under any executor; no clock is involved."),
+                   "wake outstanding never completes under any executor; no clock is involved."
+                   " Builds: the fusion build (both drivers in one binary) carries the bulk of the runs; the legs `iour-only` / `poll-only` repeat the workloads with compio-driver compiled for a single driver (io-uring only is the default build of compio), so the #[cfg(not(fusion))] glue is exercised too, at a smaller volume."),
     "technique": ("runtime monitoring: protocol oracle over enumerated single-thread orders and Miri/TSan/native multi-thread runs "
                   "of the real SharedFd<ProbeFd>"),
     "rule": ("c06a case = (k other handles, release kind per handle, threads, taker plan: pre-poll / wait / give up after n polls); "
@@ -60,6 +61,14 @@ PROP = {
          "timeout_s": {"quick": 240, "thorough": 900}},
         {"name": "rt-census-asan", "build": "asan", "pkg": "vdrv", "cmd": "c06", "shards": 4,
          "args": {"quick": ["--iters", 100, "--budget-ms", 40000], "thorough": ["--iters", 4000, "--budget-ms", 400000]},
+         "timeout_s": {"quick": 240, "thorough": 900}},
+        # single-driver configuration of compio-driver (#[cfg(not(fusion))] glue; `iour-only` is compio's default build)
+        {"name": "rt-census-iour-only", "build": "plain-iour", "pkg": "vdrv", "cmd": "c06", "shards": 2,
+         "args": {"quick": ["--driver", "iour", "--iters", 200, "--budget-ms", 40000], "thorough": ["--driver", "iour", "--iters", 8000, "--budget-ms", 300000]},
+         "timeout_s": {"quick": 240, "thorough": 900}},
+        # single-driver configuration of compio-driver (#[cfg(not(fusion))] glue; `iour-only` is compio's default build)
+        {"name": "rt-census-poll-only", "build": "plain-poll", "pkg": "vdrv", "cmd": "c06", "shards": 2,
+         "args": {"quick": ["--driver", "poll", "--iters", 200, "--budget-ms", 40000], "thorough": ["--driver", "poll", "--iters", 8000, "--budget-ms", 300000]},
          "timeout_s": {"quick": 240, "thorough": 900}},
     ],
 }
